@@ -14,6 +14,11 @@ TRUSTED = ["harness/c01.py encoder + expectations (Python)", "correspondence is 
            "CPython struct/slicing/bytes.find are modelled in lean/Drx/Py.lean, not verified"]
 ASSUMPTIONS = ["payload lengths < 2^31", "logging ignored"]
 
+def gen_tables():
+    import gen_riff
+    return gen_riff.gen_riff_consts()
+
+
 IGNORE = ("free", "junk")
 
 
